@@ -7,10 +7,16 @@ QN = ["vf.tfuncs:t0#t", "vf.tfuncs:t1#t", "vf.tfuncs:t2#t", "vf.tfuncs:t3#t", "c
 PARAMS = ["tree", "node", "fnarg", "kw"]
 
 
-def gen_tree(rng, tree_id, n=None, with_context=False, with_prevent=False):
+def gen_tree(rng, tree_id, n=None, with_context=False, with_prevent=False, aimed_batch=False):
     """nodes[j] = {"fn": i, "steps": [...], "fail": None|"memoized"|"transient"}; children have larger ids."""
     n = n or rng.randint(2, 7)
     nodes = [{"fn": rng.randrange(NFUN), "steps": [], "fail": None} for _ in range(n)]
+    if aimed_batch and n >= 4:
+        # the root evaluates one batch over two different nodes of one function (whose subtrees will usually reach
+        # different functions)
+        a, b = sorted(rng.sample(range(1, n), 2))
+        nodes[b]["fn"] = nodes[a]["fn"]
+        nodes[0]["steps"].append(["batch", nodes[a]["fn"], [a, b] if rng.random() < 0.7 else [b, a, b]])
     for j in range(n - 1):
         later = list(range(j + 1, n))
         for _ in range(rng.choice([0, 1, 1, 2, 3]) if j else rng.choice([1, 2, 3])):
